@@ -12,7 +12,7 @@ import minerals_trace as MT
 from props import c01, c03
 
 FILES = ["gen/Gen_core.v", "Model_core.v", "Spec_drex.v", "Proofs_core.v", "Proofs_total.v", "Proofs_spec.v",
-         "Proofs_frame.v", "Proofs_frame2.v", "Proofs_twofold.v", "Entry_core.v", "Extract_core.v"]
+         "Proofs_frame.v", "Proofs_frame2.v", "Proofs_twofold.v", "Proofs_twofold2.v", "Entry_core.v", "Extract_core.v"]
 PROP = "Properties/C04.v"
 TWOFOLDS = [np.diag([1.0, -1.0, -1.0]), np.diag([-1.0, 1.0, -1.0]), np.diag([-1.0, -1.0, 1.0])]
 
@@ -92,7 +92,7 @@ def run(chk):
     import pydrex.core as core
     chk.cov["trusted_base"] = common.TRUSTED_COMMON + [
         "frame indifference is proved about Spec_drex and transferred to the generated kernel by the C02 equality (valid pairs, deformation exponent <> 0)",
-        "PARTIAL: two-fold symmetry is proved up to the activity order (invariants, activities, row rule); its composition through the relative slip rates is measured by paired calls",
+        "two-fold symmetry is proved for the generated kernel and for aggregates with any subset of grains relabelled (sign triples per grain)",
         "PARTIAL: integrated textures (LSODA) are compared by paired runs within the solver tolerance, not proved",
     ]
     chk.cov["rule"] = ("rates: the C03 generator (all valid phase/fabric pairs, both regimes, 5 flow families, 4 volume families) with, per case, one Haar rotation of "
